@@ -375,6 +375,61 @@ pub fn run(tier: Tier) -> i32 {
             }
         }
     }
+    // ---- the keys that do not need stave mode (packet count, PhT count, RDH version) in the other modes in which the
+    //      tool evaluates a custom-checks file: the three other check modes, and filtered writing to a file (no
+    //      analysis runs there: the packet count comes from the reader; the RDH version is not judged in that mode)
+    {
+        let modes: Vec<(&str, Vec<String>, usize)> = vec![
+            ("check-sanity", vec!["check".into(), "sanity".into()], 3),
+            ("check-all", vec!["check".into(), "all".into()], 3),
+            ("check-all-its", vec!["check".into(), "all".into(), "its".into()], 3),
+            ("filter-to-file", vec!["--filter-link".into(), "3".into(), "-o".into(), "out.raw".into()], 2),
+        ];
+        let mut jobs: Vec<(usize, u32, Option<(usize, i64)>)> = Vec::new();
+        for (mi, (_, _, nkeys)) in modes.iter().enumerate() {
+            for subset in 1..(1u32 << nkeys) {
+                jobs.push((mi, subset, None));
+                for k in 0..*nkeys {
+                    if subset & (1 << k) != 0 {
+                        jobs.push((mi, subset, Some((k, -1))));
+                        jobs.push((mi, subset, Some((k, 1))));
+                    }
+                }
+            }
+        }
+        let res = par_map(&jobs, |_, (mi, subset, wrong)| {
+            let toml = toml_for(*subset, *wrong, &t);
+            let m: Vec<&str> = modes[*mi].1.iter().map(|s| s.as_str()).collect();
+            (run_cli(&t, Some(&toml), &m), toml)
+        });
+        for ((mi, subset, wrong), (r, toml)) in jobs.iter().zip(res.iter()) {
+            let tag = modes[*mi].0;
+            match r {
+                Err(e) => rep.violation(Violation { signature: format!("custom:{tag}:crash"), description: format!("{e} [toml: {}]", toml.replace('\n', "; ")), replay: json!({"toml": toml, "mode": tag}) }),
+                Ok((codes, _, status)) => {
+                    let got: BTreeSet<&str> = codes.iter().map(|s| s.as_str()).filter(|c| ["E9001", "E9002", "E10"].contains(c)).collect();
+                    let want: BTreeSet<&str> = match wrong {
+                        Some((k, _)) => [code_of_key(*k)].into_iter().collect(),
+                        None => BTreeSet::new(),
+                    };
+                    if got != want {
+                        let kind = if want.is_subset(&got) { format!("false-alarm:{}", got.difference(&want).next().unwrap()) } else { format!("missed:{}", want.difference(&got).next().unwrap()) };
+                        rep.violation(Violation {
+                            signature: format!("custom:{tag}:{kind}"),
+                            description: format!("mode `{}`, configured keys {:?}{}: codes {:?}, expected {:?}", modes[*mi].1.join(" "), KEYS.iter().enumerate().filter(|(i, _)| subset & (1 << i) != 0).map(|(_, k)| *k).collect::<Vec<_>>(), wrong.map(|(k, d)| format!(" with {} {}1", KEYS[k], if d < 0 { "-" } else { "+" })).unwrap_or_default(), got, want),
+                            replay: json!({"toml": toml, "mode": tag, "input_hex": hex(&t.bytes)}),
+                        });
+                    } else {
+                        let want_status = if want.is_empty() { Some(0) } else { Some(9) };
+                        if *status != want_status {
+                            rep.violation(Violation { signature: format!("custom:{tag}:exit-status"), description: format!("exit {:?}, expected {:?} [toml: {}]", status, want_status, toml.replace('\n', "; ")), replay: json!({"toml": toml, "mode": tag}) });
+                        }
+                    }
+                }
+            }
+        }
+        rep.cov("custom_keys_in_other_modes_cases", json!(jobs.len()));
+    }
     // ---- the two outer-barrel keys on a middle-layer stave (the keys cover middle and outer layers alike)
     {
         let tm = stream_of(true);
